@@ -2386,9 +2386,8 @@ pub fn compile<I: BufRead, O: Write>(
         .op(Op::infix(Rule::or, Assoc::Left))
         .op(Op::infix(Rule::xor, Assoc::Left))
         .op(Op::infix(Rule::and, Assoc::Left))
-        .op(Op::infix(Rule::eq, Assoc::Left)
-            | Op::infix(Rule::neq, Assoc::Left)
-            | Op::infix(Rule::gt, Assoc::Left)
+        .op(Op::infix(Rule::eq, Assoc::Left) | Op::infix(Rule::neq, Assoc::Left))
+        .op(Op::infix(Rule::gt, Assoc::Left)
             | Op::infix(Rule::gte, Assoc::Left)
             | Op::infix(Rule::lt, Assoc::Left)
             | Op::infix(Rule::lte, Assoc::Left))
@@ -2423,9 +2422,8 @@ pub fn compile<I: BufRead, O: Write>(
         .op(Op::infix(Rule::or, Assoc::Left))
         .op(Op::infix(Rule::xor, Assoc::Left))
         .op(Op::infix(Rule::and, Assoc::Left))
-        .op(Op::infix(Rule::eq, Assoc::Left)
-            | Op::infix(Rule::neq, Assoc::Left)
-            | Op::infix(Rule::gt, Assoc::Left)
+        .op(Op::infix(Rule::eq, Assoc::Left) | Op::infix(Rule::neq, Assoc::Left))
+        .op(Op::infix(Rule::gt, Assoc::Left)
             | Op::infix(Rule::gte, Assoc::Left)
             | Op::infix(Rule::lt, Assoc::Left)
             | Op::infix(Rule::lte, Assoc::Left))
@@ -2450,9 +2448,8 @@ pub fn compile<I: BufRead, O: Write>(
         .op(Op::infix(Rule::or, Assoc::Left))
         .op(Op::infix(Rule::xor, Assoc::Left))
         .op(Op::infix(Rule::and, Assoc::Left))
-        .op(Op::infix(Rule::eq, Assoc::Left)
-            | Op::infix(Rule::neq, Assoc::Left)
-            | Op::infix(Rule::gt, Assoc::Left)
+        .op(Op::infix(Rule::eq, Assoc::Left) | Op::infix(Rule::neq, Assoc::Left))
+        .op(Op::infix(Rule::gt, Assoc::Left)
             | Op::infix(Rule::gte, Assoc::Left)
             | Op::infix(Rule::lt, Assoc::Left)
             | Op::infix(Rule::lte, Assoc::Left))
